@@ -220,11 +220,27 @@ def trigger(rep, prog):
             rep.violation("C04.division-trigger", prog, f, None, "%s overrides is_ready_to_divide" % f.get("cls"), "only epithelial_cell may override is_ready_to_divide")
             continue
         rets = [n for n in walk(f["body"]) if n.get("k") == "ReturnStmt"]
-        c = strip(rets[0]["value"]) if len(rets) == 1 else {}
-        if c.get("k") == "BinaryOperator" and c.get("op") == ">=" and render(c["c"][0]) == "volume_" and render(c["c"][1]) == "division_volume_":
-            rep.ok("C04.division-trigger", prog, f, rets[0], "epithelial_cell: volume_ >= division_volume_")
+        # the function's own logic interpreted for each way the two volumes can compare (below / equal / above / unordered = NaN)
+        from .. import finite
+        table = {}
+        for order in ("lt", "eq", "gt", "un"):
+            def atom(e, it, order=order):
+                if e.get("k") == "BinaryOperator" and e.get("op") in ("<", "<=", ">", ">=", "==", "!="):
+                    l, r = render(e["c"][0]).replace("this->", ""), render(e["c"][1]).replace("this->", "")
+                    if {l, r} == {"volume_", "division_volume_"}:
+                        o = order if l == "volume_" else {"lt": "gt", "gt": "lt"}.get(order, order)
+                        return {"<": o == "lt", "<=": o in ("lt", "eq"), ">": o == "gt", ">=": o in ("gt", "eq"), "==": o == "eq", "!=": o != "eq"}[e["op"]]
+                return NotImplemented
+            try:
+                table[order] = finite.Interp(atom).call(f)
+            except finite.Unknown as u:
+                raise AnalysisBroken("epithelial_cell::is_ready_to_divide: %s cannot be interpreted" % u)
+        if any(v is None for v in table.values()):
+            raise AnalysisBroken("epithelial_cell::is_ready_to_divide: the returned value is not a function of how volume_ compares with division_volume_ that this checker can interpret (%s)" % table)
+        if table == {"lt": False, "eq": True, "gt": True, "un": False}:
+            rep.ok("C04.division-trigger", prog, f, rets[0], "epithelial_cell: ready exactly when volume_ >= division_volume_ (interpreted for below / equal / above / NaN)")
         else:
-            rep.violation("C04.division-trigger", prog, f, rets[0] if rets else None, "division trigger is not volume_ >= division_volume_", "epithelial_cell::is_ready_to_divide returns %s; a cell is eligible exactly when its volume has reached its division volume" % (short(rets[0]["value"], 60) if rets else "?"))
+            rep.violation("C04.division-trigger", prog, f, rets[0] if rets else None, "division trigger is not volume_ >= division_volume_", "epithelial_cell::is_ready_to_divide returns %s for volume_ below / equal to / above / unordered with division_volume_; a cell is eligible exactly when its volume has reached its division volume (false, true, true, false)" % ([table[o_] for o_ in ("lt", "eq", "gt", "un")],))
     if not any(f.get("cls") == "epithelial_cell" for f in ovs):
         rep.violation("C04.division-trigger", prog, None, None, "epithelial_cell does not override is_ready_to_divide", "epithelial cells would never divide")
 
@@ -340,6 +356,8 @@ def removal(rep, prog):
         rm = [x for d_ in def_chain(it, a[0]) for x in walk(d_) if x.get("k") == "CallExpr" and x.get("callee") == "std::remove_if"] if a else []      # original nodes (indexed)
         uncond = all(p_.get("k") not in ("IfStmt", "ForStmt", "WhileStmt", "CXXForRangeStmt") for p_, _s, _c in fi.ancestors(e))
         if not rm:
+            if any(x.get("k") == "CXXMemberCallExpr" and x.get("callee") == "cell::is_below_min_vol" for x in walk(it["body"])):
+                raise AnalysisBroken("solver::run_iteration: the cells below the minimum volume are removed by a hand-written loop (erase without std::remove_if): which cells it erases is not decided by this checker")
             why = "the erased range does not start at std::remove_if(...)"
         elif not (fi.order[id(e)] > fi.order[id(integ[0])] and uncond):
             why = "the removal does not run unconditionally after update_nodes_positions"
